@@ -40,7 +40,7 @@ func (i *InitDownsamplePlanner) Process(ctx *shared.PlannerContext) (sql.ISelect
 		sql.NewSimpleCol(valueCol, "value"),
 		sql.NewSimpleCol("intDiv(samples.timestamp_ns, 1000000)", "timestamp_ms"),
 	).From(sql.NewSimpleCol(tableName, "samples")).AndWhere(
-		sql.Gt(sql.NewRawObject("samples.timestamp_ns"), sql.NewIntVal(ctx.From.UnixNano())),
+		sql.Ge(sql.NewRawObject("samples.timestamp_ns"), sql.NewIntVal(ctx.From.UnixNano())),
 		sql.Le(sql.NewRawObject("samples.timestamp_ns"), sql.NewIntVal(ctx.To.UnixNano())),
 		clickhouse_planner.GetTypes(ctx),
 	).OrderBy(
